@@ -12,5 +12,6 @@ CONSTANTS
   ScsSids <- SidClasses
   ReaderScsAnySid = TRUE
   LazyFlushTypes = {}
+  NoSharedState = TRUE
 INVARIANTS NoDesync PrefixOk InFollowsOut AllDelivered Flushed HsExact NoByteLost Emit
 CHECK_DEADLOCK FALSE
